@@ -879,8 +879,8 @@ def handleSpec (name : String) (ins ans : List String) : String :=
       | [h, full], [b, "|", f, "|", e] =>
         let parseMsgs (w : String) : Option (List Spec.OutMsg) :=
           if w == "-" then some [] else (w.splitOn ",").mapM (fun m => (parseScOut s!"0:{m}").map (·.msg))
-        match unhex h, parseMsgs b, parseMsgs f with
-        | some h, some b, some f => optVerdict (Spec.oracleSigC14 h (full == "1") b f (e == "none"))
+        match (h.splitOn "+").mapM unhex, parseMsgs b, parseMsgs f with
+        | some hs, some b, some f => optVerdict (Spec.oracleSigC14 hs (full == "1") b f (e == "none"))
         | _, _, _ => "FAIL unparsable"
       | _, _ => "FAIL unparsable"
     | "nosom" =>
